@@ -4,7 +4,7 @@ from vf.runner import Inst
 
 PROPERTY = 'C03'
 LEVEL = 'model_checking'
-BOUNDS = {'quick': dict(type='SecFxp(8,4)', ops='add sub neg pos mul(sec,int,float) lshift scalar_mul schur_prod in_prod prod sum if_else if_swap (scalar and list) '
+BOUNDS = {'quick': dict(type='SecFxp(8,4)', ops='add sub neg pos mul(sec,int,float) lshift scalar_mul schur_prod in_prod prod sum if_else if_swap (scalar and list) trunc '
                         'vector_add vector_sub, constructor inference for int/float, sgn/lsb results'),
           'thorough': dict(type='SecFxp(8,4), SecFxp(12,6)', ops='as quick plus matrix_prod, _convert, find, argmin')}
 OUTSIDE = ['programs are covered by induction over the per-operation step: a wrong pre-state cannot arise if every step preserves the invariant',
@@ -129,6 +129,15 @@ def h_op(env):
             env.eq('if_swap_list:u0', _flag_ok(env, k, 'if_swap_list.u0', u[0], F), cbit * (b - a) + a)
             env.eq('if_swap_list:w0', _flag_ok(env, k, 'if_swap_list.w0', w[0], F), cbit * (a - b) + b)
         _unchanged(env, k, op + ':condition', c, cbit * F, True)
+    elif op == 'trunc':
+        # public truncation / right shift of a fixed-point number: x / 2^s is in general not whole, whatever the flag of x
+        for s_ in (1, 2):
+            z = mpc.trunc(x, f=s_)
+            v = _flag_ok(env, k, f'trunc{s_}', z, F)
+            env.check(f'trunc{s_}:value', (v * (1 << s_) - a < (1 << s_)) & (a - v * (1 << s_) < (1 << s_)))
+        zs = mpc.trunc([x, y], f=1)
+        _flag_ok(env, k, 'trunc_list0', zs[0], F)
+        _flag_ok(env, k, 'trunc_list1', zs[1], F)
     elif op == 'constructor':
         for val, want_int in ((3, True), (2.0, True), (2.5, False), (-0.0625, False)):
             z = secfxp(val)
@@ -159,7 +168,7 @@ def h_twin(env):
 
 
 OPS = ['add', 'sub', 'neg', 'mul', 'mul_int', 'mul_float', 'lshift', 'scalar_mul', 'schur_prod', 'in_prod', 'prod', 'sum', 'vector',
-       'if_else', 'if_swap', 'if_else_list', 'if_swap_list', 'constructor', 'bits']
+       'if_else', 'if_swap', 'if_else_list', 'if_swap_list', 'trunc', 'constructor', 'bits']
 
 
 def instances(tier):
